@@ -10,8 +10,8 @@
    since bbcb995: a timer expiry needs a pending timer, which is what ETimeout means in [step]).
    [raw_timeout] is also what the exported method Timeout() of HEAD does (it has no caller in /repo outside
    tests; the correspondence check drives it as op Y).
-   One finding is open on /repo HEAD: lns-lcp-down-ncp-down (internal/l2tp onLCPDown, C05_session_lns_lcp_down_refuted,
-   fixes/C05_lns_lcp_down_ncp_down.patch); every other _refuted theorem is about code before the named commit.
+   No finding of this property is open; every _refuted theorem below is about code before the named commit
+   (the last two: lcp-echo-reply-phase fixed in 1b41d89, lns-lcp-down-ncp-down fixed in c99b5bd).
    [rfc1661] is the table of RFC 1661 section 4.1 transcribed independently (Model.v part 2), and
    Rfc2.v a second transcription in the RFC's own row layout.
    All theorems hold for every configuration c = (maxConf, maxTerm, is-LCP), every value of the
@@ -487,7 +487,7 @@ Print Assumptions C05_system_nonvacuous.
 
 (* ---- the session layer above the dispatcher: internal/pppoe/session.go (Sess.v) ----------------------- *)
 
-(* this-layer-down of LCP (onLCPDown; internal/pppoe, and internal/l2tp once repaired): both NCP automata receive Down - they end in Initial or Starting -
+(* this-layer-down of LCP (onLCPDown; internal/pppoe, and internal/l2tp since c99b5bd): both NCP automata receive Down - they end in Initial or Starting -
    and the phase falls back to Establish; the LCP automaton itself is not touched by its own callback. *)
 Theorem C05_session_lcp_down_takes_ncps_down :
   forall c v s,
@@ -531,10 +531,10 @@ Example C05_session_nonvacuous :
 Proof. exact session_nonvac. Qed.
 Print Assumptions C05_session_nonvacuous.
 
-(* Open finding lns-lcp-down-ncp-down (/repo HEAD, internal/l2tp onLCPDown): the NCP automata of an LNS session do
-   not get the Down event when LCP leaves Opened; after the peer renegotiates LCP, IPCP is still Opened (and
-   ipcpOpen set) while LCP is in Ack-Sent and the phase is Establish.  Repaired: IPCP goes to Starting. *)
-Theorem C05_session_lns_lcp_down_refuted :
+(* Historical (fixed in c99b5bd, lns-lcp-down-ncp-down, internal/l2tp onLCPDown): the NCP automata of an LNS session
+   did not get the Down event when LCP left Opened; after the peer renegotiated LCP, IPCP was still Opened (and
+   ipcpOpen set) while LCP was in Ack-Sent and the phase Establish.  HEAD: IPCP goes to Starting. *)
+Theorem C05_session_lns_lcp_down_before_c99b5bd_refuted :
   let peer_renegotiates := XFrame ProtoLCP [1; 8; 0; 8; 1; 4; 5; 212] CGood in
   let s := fst (sess_run scfg_lns_head Repaired (sess_init (head_pick 0) (head_pick 0) (head_pick 0)) lns_open_ops) in
   let s' := fst (sess_step scfg_lns_head Repaired s peer_renegotiates) in
@@ -545,4 +545,4 @@ Theorem C05_session_lns_lcp_down_refuted :
                    (lns_open_ops ++ [peer_renegotiates])) in
    st (s_ipcp (sy r)) = Starting /\ ipcpOpen r = false /\ ph r = PhEstablish).
 Proof. exact lns_lcp_down_refuted. Qed.
-Print Assumptions C05_session_lns_lcp_down_refuted.
+Print Assumptions C05_session_lns_lcp_down_before_c99b5bd_refuted.
